@@ -224,8 +224,12 @@ def shamir_reader_rules(ctx, R1, R3):
         xw = Q.find_all(x, lambda t: t.op == "as_array")
         yparts = Q.parts_of(y)
         yel = None
+        collected = False
         if len(yparts) == 1 and yparts[0][0] == "repeat" and len(yparts[0][1]) == 1:
-            yel = yparts[0][1][0][1]
+            yel = yparts[0][1][0][1]                  # one push per loop iteration
+        elif y.op == "collected" and y.args[0].op == "mapped":
+            yel = y.args[0].args[1]                   # iterator.map(decode).collect::<Result<Vec<_>, _>>()?
+            collected = True
         yw = Q.find_all(yel, lambda t: t.op == "as_array") if yel is not None else []
         if xw and yw:
             bx, lox, hix = lin.window(xw[0])
@@ -263,7 +267,12 @@ def shamir_reader_rules(ctx, R1, R3):
         # the y element pushed is ct_value of a from_repr whose validity dominated the push
         pushes = [e for e in Q.calls(eng, "::push") if e["frame"] == fr.key]
         oky_valid = False
-        for e in pushes:
+        if collected and yel is not None:
+            # the collection exists only if every mapped element was Ok: the element's validity is a fact of the Ok path
+            fr_ = Q.find_all(yel, lambda t: t.op == "fp_from_repr")
+            oky_valid = len(fr_) == 1 and any(t.op == "ct_valid" and rel == "eq" and v == 1 and Q.contains(t, lambda z: z is fr_[0]) for t, rel, v in fs)
+            pushes = [None]
+        for e in ([] if collected else pushes):
             f_p = Q.closure(eng, eng.facts_at(e["frame"], e["block"]))
             el = e["argv"][1]
             fr_ = Q.find_all(el, lambda t: t.op == "fp_from_repr")
@@ -355,12 +364,24 @@ def run(ctx):
     eng, ret, st, fr = ctx.root(wroot)
     at = ctx.fn(wroot).loc
     parts = Q.parts_of(ret) if ret is not None else []
-    okw = len(parts) == 2 and all(p[0] == "part" for p in parts)
+    from .common import complete_repr
+    okw = len(parts) == 2 and parts[0][0] == "part" and parts[1][0] in ("part", "repeat")
     if okw:
-        xs, ys = parts[0][1], parts[1][1]
-        okw = Q.contains(xs, lambda t: t.op == "fp_to_repr" and Q.path_of(t.args[0]) == "s.%d" % ix) and \
-            ys.op == "fold" and Q.contains(ys, lambda t: t.op == "fp_to_repr") and \
-            all(p.startswith("s.%d" % iy) for p in Q.params(Q.leaves(ys)))
+        xs = parts[0][1]
+        xe = complete_repr(xs)
+        okx = xe is not None and Q.path_of(xe) == "s.%d" % ix
+        if parts[1][0] == "part":
+            # idiom (a): the y encodings concatenated by a fold over the y vector
+            ys = parts[1][1]
+            oky = ys.op == "fold" and Q.contains(ys, lambda t: t.op == "fp_to_repr") and \
+                all(p.startswith("s.%d" % iy) for p in Q.params(Q.leaves(ys)))
+        else:
+            # idiom (b): one complete element encoding appended per iteration of a loop over the y vector
+            body = parts[1][1]
+            ye = complete_repr(body[0][1]) if len(body) == 1 and body[0][0] == "part" else None
+            src = Q.traversal_of(eng, ye, ordered=True) if ye is not None else None
+            oky = src is not None and Q.path_of(src) == "s.%d" % iy
+        okw = okx and oky
     ctx.add("C08.R1", wroot.split("::<impl")[0] + "::Share->Vec<u8>#chunk-table", okw,
             "writer must emit repr(x) followed by the concatenation of repr(y_i) in order; found %s" % [S(p[1], 3) for p in parts], at)
     shamir_reader_rules(ctx, "C08.R1", "C08.R3")
